@@ -1,8 +1,10 @@
 /-
-  Commodity formats: `GetCommodityFormats` lets the last directive with a format win, in the
-  order root, then `resolved.FileOrder`.  If the member files other than the root do not
-  disagree on any commodity's format, the result does not depend on that order, hence equals
-  the formats of a rebuild.
+  Commodity formats.  `GetCommodityFormats` (repaired by fix-formats-path-order.diff) lets the
+  last directive with a format win, reading the root journal and then the included files in
+  path order: `formats_ok` — the result is that of a rebuild, whatever `resolved.FileOrder` is.
+  The pinned getter read the files in the order of `resolved.FileOrder`; the lemmas about it are
+  kept: if the member files other than the root do not disagree on any commodity's format the
+  result does not depend on that order (`formats_order_indep`, `agree_of_noConflict`).
 -/
 import HL.Lemmas.View
 namespace HL.Lemmas.Formats
@@ -14,7 +16,7 @@ def fmtStep (m : AList String) (cd : CommDir) : AList String :=
 
 theorem formatsOf_eq (l : List CommDir) : formatsOf l = l.foldl fmtStep [] := rfl
 
-theorem computeFormats_eq (w : WS) : computeFormats w = formatsOf (allCommDirs w) := rfl
+theorem pinnedComputeFormats_eq (w : WS) : pinnedComputeFormats w = formatsOf (allCommDirs w) := rfl
 
 theorem get_fmtStep (m : AList String) (cd : CommDir) (sym : String) :
     (fmtStep m cd).get sym = if cd.raw ≠ "" ∧ cd.sym = sym then some cd.fmt else m.get sym := by
@@ -212,47 +214,51 @@ theorem mem_order (cfg : Cfg) (fs : FS) (w : WS) (h : WInv cfg fs w) (p : String
       · intro h'; simp at h'
       · intro h'; exact absurd ((h.closed p).mpr h') e2
 
-theorem formats_ok (cfg : Cfg) (fs : FS) (w : WS) (h : WInv cfg fs w) (hlim : fs.length ≤ cfg.limit)
-    (hno : formatConflict fs w.root = false) :
+theorem mem_rfiles_keys (cfg : Cfg) (fs : FS) (w : WS) (h : WInv cfg fs w) (p : String) :
+    p ∈ dedup w.rfiles.keys ↔ p ∈ (members fs w.root).filter (· ≠ w.root) := by
+  rw [mem_dedup, mem_keys_iff, ← h.pinv.r.order p, mem_order cfg fs w h p, List.mem_filter]
+  simp
+
+/-- the directives `GetCommodityFormats` reads are those of the root and of the other member
+    files of the directory, in path order -/
+theorem pathCommDirs_eq (cfg : Cfg) (fs : FS) (w : WS) (h : WInv cfg fs w) :
+    pathCommDirs w =
+      cdsAt fs w.root ++ (isort ((members fs w.root).filter (· ≠ w.root))).flatMap (cdsAt fs) := by
+  unfold pathCommDirs
+  have hR := h.pinv.r
+  have hs : isort (dedup w.rfiles.keys) = isort ((members fs w.root).filter (· ≠ w.root)) :=
+    isort_ext _ _ (dedup_nodup _) ((members_nodup fs w.root).filter _) (mem_rfiles_keys cfg fs w h)
+  rw [hs]
+  congr 1
+  · rw [hR.primary]; rfl
+  · apply flatMap_congr'
+    intro p hp
+    rw [mem_isort, ← mem_rfiles_keys cfg fs w h p, mem_dedup, mem_keys_iff] at hp
+    have hrf := hR.rfiles p
+    by_cases e1 : p = w.root
+    · rw [hrf] at hp; simp [e1] at hp
+    · by_cases e2 : (w.idx.files.get p).isSome
+      · simp only [e1, e2, if_false, if_true] at hrf
+        simp only [cdsAt, hrf]
+        try rfl
+      · rw [hrf] at hp; simp [e1, e2] at hp
+
+theorem computeFormats_eq' (w : WS) : computeFormats w = formatsOf (pathCommDirs w) := rfl
+
+/-- the commodity formats of a workspace that satisfies the invariant for the directory `fs`
+    are those of the specification (code repaired by fix-formats-path-order.diff: no guard) -/
+theorem formats_ok (cfg : Cfg) (fs : FS) (w : WS) (h : WInv cfg fs w) :
     formatsOk (rebuildAt cfg.limit w.root fs) (observe w).1 = true := by
   rw [observe_fst]
   simp only [formatsOk, newF_eq cfg fs w h, Bool.and_eq_true, beq_iff_eq, List.all_eq_true]
   obtain ⟨cr, hcr⟩ := Option.isSome_iff_exists.mp ((h.closed w.root).mp h.pinv.rootIdx).2
-  have hkeys : fs.keys.length ≤ cfg.limit := by simpa [AList.keys] using hlim
-  obtain ⟨l1, l2⟩ := load_spec cfg.limit fs w.root cr hkeys hcr
-  -- both direct lists of directives: root, then the other members in some order
-  have hR : (rebuildAt cfg.limit w.root fs).formats =
-      formatsOf (cdsAt fs w.root ++ (load cfg.limit fs w.root cr).order.flatMap (cdsAt fs)) := by
+  have hR : (rebuildAt cfg.limit w.root fs).formats = computeFormats w := by
+    rw [computeFormats_eq', pathCommDirs_eq cfg fs w h]
     have e1 : cdsAt fs w.root = cr.cds := by simp [cdsAt, hcr]
-    simp only [rebuildAt, loadOrder, hcr, List.flatMap_cons]
+    simp only [rebuildAt, formatOrder, hcr, List.flatMap_cons]
     rw [e1]
     rfl
-  have hW : computeFormats w = formatsOf (cdsAt fs w.root ++ w.order.flatMap (cdsAt fs)) := by
-    rw [computeFormats_eq, allCommDirs_eq cfg fs w h]
-  have hmem : ∀ x, x ∈ w.order ↔ x ∈ (load cfg.limit fs w.root cr).order := by
-    intro x
-    rw [mem_order cfg fs w h x, l2 x, mem_members]
-    constructor
-    · rintro ⟨⟨h1, h2⟩, h3⟩
-      obtain ⟨c, hc⟩ := Option.isSome_iff_exists.mp h2
-      rw [(l1 x c).mpr ⟨h1, h3, hc⟩]; rfl
-    · intro hs
-      obtain ⟨c, hc⟩ := Option.isSome_iff_exists.mp hs
-      have := (l1 x c).mp hc
-      exact ⟨⟨this.1, by rw [this.2.2]; rfl⟩, this.2.1⟩
-  have hget : ∀ sym, (computeFormats w).get sym = (rebuildAt cfg.limit w.root fs).formats.get sym := by
-    intro sym
-    rw [hR, hW]
-    apply formats_order_indep _ _ _ _ hmem sym
-    exact agree_of_noConflict fs w.root hno w.order (fun p hp => (mem_order cfg fs w h p).mp hp) sym
-  constructor
-  · unfold sortedKeys
-    apply isort_ext
-    · rw [computeFormats_eq]; exact formatsOf_nodup _
-    · rw [hR]; exact formatsOf_nodup _
-    · intro a
-      rw [mem_keys_iff, mem_keys_iff, hget a]
-  · intro e _
-    exact hget e.1
+  rw [hR]
+  exact ⟨rfl, fun _ _ => rfl⟩
 
 end HL.Lemmas.Formats
